@@ -5,9 +5,11 @@ CONSTANT Deltas <- DeltasQuick
 \* whole lattice for the documented order; every other metric order gets the kind-distinct cubes
 CONSTANT FullOrders <- DocOrdersOnly
 CONSTANT Rotations <- RotQuick
+CONSTANT ScaledOrders <- DocOrdersOnly
 CONSTANT Deviation = "none"
 INVARIANT RewardIsDocumentedCombination
 INVARIANT NormalisedByKind
+INVARIANT PositiveMaxBecomesOne
 INVARIANT DistinctColumns
 INVARIANT NormalisedAtMostOne
 INVARIANT NormalisedAttainsOne
